@@ -105,6 +105,9 @@ pub fn predict(buf: &[u8], pk: &MPkt, n_sets: usize) -> Option<(Pred, BTreeSet<&
 }
 
 pub fn check(sim: &mut Sim, prop: &str, d: &Delivery, w: &Walk, r: &[NetflowPacket]) {
+    if !super::decomposes(sim, d, r) {
+        return;
+    }
     let Some(offs) = offsets(d.buf, r) else { return };
     for (i, el) in r.iter().enumerate() {
         let (ver, res, n_sets): (u16, _, usize) = match el {
